@@ -137,6 +137,37 @@ func c19Run(c *fw.Ctx) fw.Outcome {
 	if after := deepDump(s); after != before {
 		return fw.Bad(key, desc, "a writer modified the cue list it was given ({%s}): %s", desc, firstDiff(before, after))
 	}
+	// (h) a list that has been written before and is then edited in place through its public fields is written like a
+	// fresh list with the same content: a writer keeps nothing about a list from one call to the next
+	c19Edit := func(l *astisub.Subtitles) {
+		for k, it := range l.Items {
+			it.StartAt += time.Duration(k+1) * time.Millisecond
+			it.EndAt += time.Duration(k+2) * time.Millisecond
+			for li := range it.Lines {
+				for ri := range it.Lines[li].Items {
+					run := &it.Lines[li].Items[ri]
+					run.Text = "edited " + run.Text
+					if run.InlineStyle != nil {
+						run.InlineStyle.SRTBold, run.InlineStyle.SRTItalics = !run.InlineStyle.SRTBold, !run.InlineStyle.SRTItalics
+						run.InlineStyle.WebVTTTags = nil
+						run.InlineStyle.SSAEffect = ""
+					}
+				}
+			}
+		}
+	}
+	fresh := richSubtitles(fw.NewRand(seed))
+	c19Edit(s)
+	c19Edit(fresh)
+	for _, w := range allWriters {
+		b1, e1, p1 := writeBytes(w, s)
+		b2, e2, p2 := writeBytes(w, fresh)
+		if p1 != "" || p2 != "" || !bytes.Equal(b1, b2) || (e1 != nil) != (e2 != nil) {
+			return fw.Bad(key, desc, "%s writer: a list that was written before and then edited in place gives other bytes than a fresh list with the same content ({%s}): %s %s%s", w.name, desc, firstDiff(string(b2), string(b1)), p1, p2)
+		}
+	}
+	c.Count("rewrites_after_an_edit_in_place", int64(len(allWriters)))
+	s = richSubtitles(fw.NewRand(seed)) // (the clock step below works on the unedited list)
 	// (e) the injectable clock: only STL may depend on it, and only when the metadata lacks a date, and only in the
 	// creation/revision date bytes of the GSI block
 	defer func() { astisub.Now = func() time.Time { return fixedNow } }()
@@ -244,7 +275,7 @@ func init() {
 	fw.Register(&fw.Property{
 		ID:          "C19",
 		Level:       "exploration",
-		Rule:        "case = one cue list with 0..6 styles and 0..6 regions having heterogeneous attribute subsets (SSA attribute subsets, TTML attributes, WebVTT STYLE lines spread over several styles, styles without inline attributes, parents), metadata of every format present or absent, STL dates both/one/none. Oracle: (a) each of the 5 writers run 50 times on the list gives one distinct output; (b) driver phase: the same lists written in 4 (thorough 8) fresh processes give the same hashes; (c) a pointer-graph-aware deep dump of the list is identical before and after every write; (d) writing to the five formats in 24 (thorough: all 120) different orders on one list object gives the solo outputs; (e) under two different injected clocks all outputs are identical except STL when the metadata lacks a date, and then only GSI bytes 224..235 differ; (f) the package state digest (verif hook) and the data-segment digests (every package-level variable of the library as linked into the monitor, byte for byte and through slices/strings/pointers using the debug information) are unchanged at the end of the worker; (g) after three other lists have gone through all writers and the list itself through the TTML writer with three indentation options, every writer still gives the solo output. distinct_nontrivial = distinct lists.",
+		Rule:        "case = one cue list with 0..6 styles and 0..6 regions having heterogeneous attribute subsets (SSA attribute subsets, TTML attributes, WebVTT STYLE lines spread over several styles, styles without inline attributes, parents), metadata of every format present or absent, STL dates both/one/none. Oracle: (a) each of the 5 writers run 50 times on the list gives one distinct output; (b) driver phase: the same lists written in 4 (thorough 8) fresh processes give the same hashes; (c) a pointer-graph-aware deep dump of the list is identical before and after every write; (d) writing to the five formats in 24 (thorough: all 120) different orders on one list object gives the solo outputs; (e) under two different injected clocks all outputs are identical except STL when the metadata lacks a date, and then only GSI bytes 224..235 differ; (f) the package state digest (verif hook) and the data-segment digests (every package-level variable of the library as linked into the monitor, byte for byte and through slices/strings/pointers using the debug information) are unchanged at the end of the worker; (h) the list, written before, is edited in place (times, texts, bold/italic, tags) and must then be written exactly like a fresh list edited the same way; (g) after three other lists have gone through all writers and the list itself through the TTML writer with three indentation options, every writer still gives the solo output. distinct_nontrivial = distinct lists.",
 		Assumptions: []string{"map iteration order is randomised by the Go runtime on every range statement, so 50 repetitions expose order dependence with overwhelming probability when at least two map entries contribute"},
 		Cases:       func(tier string) int64 { return tierN(tier, 300, 5000) },
 		Setup: func(c *fw.Ctx) error {
